@@ -145,7 +145,8 @@ def _child(jobs, start, conn):
         if "merge_seq" in j:
             run_job({"merge_seq": [[1, 2]], "m": 2, "size0": 64})
         else:
-            w = dict(j, H=2, W=2, raw=[[1, 1], [1, 1]], idx=-1)
+            c0 = j["raw"][0][0]
+            w = dict(j, H=2, W=2, raw=[[c0, c0], [c0, c0]], idx=-1)
             if j.get("mask") is not None:
                 w["mask"] = [[1, 1], [1, 1]]
             run_job(w)
